@@ -92,7 +92,7 @@ class DGAccumulator {
 
 public:
   //! Default constructor
-  DGAccumulator() {}
+  DGAccumulator() : local_mdata(0), global_mdata(0) {}
 
   /**
    * Adds to accumulated value
